@@ -57,6 +57,8 @@ func fieldsRead(fn *ssa.Function, fields ...*types.Var) map[*types.Var]bool {
 }
 
 func runC03(c *Ctx) {
+	c.R.Rule("RS-no-request-time-state", "request handling writes no state that outlives the request (package-level variables, objects built at start-up, constructor variables captured by handlers) declared in the packages implementing this property", 1)
+	runStateless(c, "RS-no-request-time-state", "main.OAuthProxy", "pkg/cookies")
 	r := c.R
 	r.Rule("R1-callback-gating", "save in OAuthCallback needs decodeState ok -> LoadCSRFCookie(name(nonce)) ok -> CheckOAuthState(nonce) on that object", 1)
 	r.Rule("R2-csrf-load", "LoadCSRFCookie returns a CSRF only from a same-named cookie that decodeCSRFCookie accepted; decodeCSRFCookie needs Validate ok", 2)
@@ -64,6 +66,8 @@ func runC03(c *Ctx) {
 	r.Rule("R4-start-side", "login URL carries encodeState(csrf.HashOAuthState()) and HashOIDCNonce() of the object whose cookie was set before the redirect; NewCSRF uses two Nonce calls", 6)
 	r.Rule("R7-sweeps-spare-csrf", "the session-cookie sweeps (Clear, stale-part sweep on Save) select cookies by the name(_N)? template that rejects <name>_<hash>_csrf (shared with C11.R3/R4, C10.R4)", 10)
 	r.Rule("R8-own-verifier-redeemed", "every Redeem implementation sends the verifier of this login's CSRF cookie as code_verifier, so a callback with its own state and cookie can complete under PKCE (shared with C05.R9)", 4)
+	r.Rule("R10-state-split-at-first-colon", "decodeState divides nonce:redirect at the first colon only, so the login's own state decodes whatever the application redirect contains (round 7)", 1)
+	runFirstColonRule(c, "R10-state-split-at-first-colon", "main.decodeState")
 	r.Rule("R9-login-params-fresh", "LoginURLParams returns a map made for this request, never the provider's shared default map", 1)
 	r.Rule("R6-clears-own-cookie-only", "csrf.ClearCookie deletes exactly its own cookie", 2)
 	r.Rule("R5-name-agreement", "cookieName and ExtractStateSubstring cut the hashed state at the same constant, and the latter returns its cut whenever it made one; encodeState/decodeState agree on field order", 5)
